@@ -317,6 +317,18 @@ Definition canon (extra : table obj) (o : obj) : option obj :=
   | None => None
   end.
 
+(* the renaming computed by [canon]: name in the term -> canonical number of the
+   object in the graph reachable from [o] (None: not reachable, or an empty tuple) *)
+Definition canon_number (extra : table obj) (o : obj) (id : nat) : option nat :=
+  let defs := collect_defs o ++ extra in
+  match canon_go (S (osize o + defs_size defs)) defs {| c_seen := []; c_next := 0 |} o with
+  | Some (_, st) => match t_get (c_seen st) id with
+                    | Some (nid, _, false) => Some nid
+                    | _ => None
+                    end
+  | None => None
+  end.
+
 (* ---- boolean equalities ----------------------------------------------------- *)
 Fixpoint val_eqb (a b : val) {struct a} : bool :=
   match a, b with
